@@ -131,6 +131,20 @@ CLAIMED = {
         "are not enumerated; atomic_thread_fence and __sync builtins are not interposed.",
    technique="TLA+ vector-clock happens-before specification + TLC trace validation of recorded operation streams + TLC model of the spin lock with orders extracted from the code",
    engine="mc+ctl+free+tv", design_ref="6/C06"),
+ "C07": dict(
+   category="model_checking",
+   text="Determ.tla models the inspect-phase marking protocol of the deterministic executor (take a free object, steal by CAS a mark "
+        "held by a larger id and flag the loser, flag oneself when the mark belongs to a smaller id); for ALL neighbourhood assignments "
+        "of 3 items x 2 objects and all interleavings TLC shows that the ready set at the barrier equals Winners(ids, neighbourhoods) "
+        "-- a function of the input -- and that ready contexts never share an object (plus a mutant vacuity guard). The real executor "
+        "(wl<Deterministic<>>, with and without det_id) runs generated programs with non-commutative per-object logs and dynamic work "
+        "creation, each program 4-5 times on 1-8 threads under controlled schedules (2 topologies), jitter and free, with inputs below "
+        "and above the minimum window; every run is validated against ForEachAbs (conservation, isolation) and all runs of a program "
+        "must report identical per-object commit sequences (TraceDeterm).",
+   note="Trusted: TLC, controlled runtime, harness operator. fixed_neighborhood / local_state / det_parallel_break / intent_to_read variants are not "
+        "exercised; det_id ids are distinct.",
+   technique="PlusCal/TLA+ model of the marking protocol checked by TLC + TLC trace validation of repeated real runs (equality of outcomes across runs)",
+   engine="mc+ctl+free+tv", design_ref="6/C07"),
 }
 
 NOT_YET = "check not built yet in this round (specification and harness planned in DESIGN.md section 6); not claimed"
